@@ -35,6 +35,8 @@ func c06(c *Ctx) {
 	c06retryChain(c)
 	c06optionsForwarded(c)
 	c06codec(c)
+	c06notFoundIsNotAnError(c)
+	c06atomicTTL(c)
 }
 
 // isCeilSeconds: s is int(math.Ceil(X.Seconds())); returns X.
